@@ -258,3 +258,122 @@ class SdssFlux2AB(FunctionContract):
         for _ in range(60):
             r = rng.randint(1, 4)
             yield dict(flux=np.array([[rng.uniform(0.1, 100) for _ in range(5)] for _ in range(r)]), form=rng.choice(["flux", "magnitude", "ivar"]))
+
+
+@register("C19")
+class FilterThruMean:
+    """filter_thru returns, per trace and band, a response-weighted mean of the flux: linear, constant-preserving where the wavelengths
+    overlap the band, within [min, max] of the flux, independent of the values of masked pixels (bounded, numerical)"""
+    name = "filter_thru_weighted_mean"
+    prop = "C19"
+    target = "pydl.pydlspec2d.spec2d:filter_thru"
+    level = "B"
+    KINDS = ("linear_in_the_flux", "constant_spectrum_preserved", "within_min_and_max_of_the_flux", "independent_of_masked_pixel_values",
+             "shape_and_finite", "no_unexpected_exception")
+
+    def _cases(self, rng, n):
+        for rep in range(n):
+            nt = rng.choice([1, 2, 3])
+            nx = rng.choice([60, 120])
+            lo = rng.choice([3.55, 3.6, 3.7])
+            hi = rng.choice([3.9, 3.95, 3.97])
+            loglam = np.linspace(lo, hi, nx)
+            wave = np.array([10 ** (loglam + 1e-4 * t) for t in range(nt)])
+            flux = np.array([[rng.uniform(0.5, 5.0) for _ in range(nx)] for _ in range(nt)])
+            kind = rng.choice(["none", "random", "same_column_all_traces", "run"])
+            mask = None
+            if kind == "random":
+                mask = np.array([[1 if rng.random() < 0.1 else 0 for _ in range(nx)] for _ in range(nt)])
+            elif kind == "same_column_all_traces":
+                mask = np.zeros((nt, nx), dtype=int)
+                mask[:, rng.randint(5, nx - 6)] = 1
+            elif kind == "run":
+                mask = np.zeros((nt, nx), dtype=int)
+                a = rng.randint(5, nx - 15)
+                mask[rng.randint(0, nt - 1), a:a + 6] = 1
+            yield dict(wave=wave, flux=flux, mask=mask, inp=dict(rep=rep, ntrace=nt, nx=nx, mask=kind, loglam=[lo, hi]))
+
+    def _check(self, c, rng):
+        import warnings
+        from pydl.pydlspec2d.spec2d import filter_thru
+        bad = []
+        wave, flux, mask = c["wave"], c["flux"], c["mask"]
+        with warnings.catch_warnings():
+            warnings.simplefilter("ignore")
+            r = filter_thru(flux.copy(), waveimg=wave.copy(), mask=None if mask is None else mask.copy())
+            if r.shape != (flux.shape[0], 5) or not np.all(np.isfinite(r)):
+                bad.append(("shape_and_finite", "shape %s finite %s" % (r.shape, bool(np.all(np.isfinite(r))))))
+                return bad
+            f2 = np.array([[rng.uniform(0.5, 5.0) for _ in range(flux.shape[1])] for _ in range(flux.shape[0])])
+            a, b = rng.uniform(-2, 2), rng.uniform(-2, 2)
+            r2 = filter_thru(f2.copy(), waveimg=wave.copy(), mask=None if mask is None else mask.copy())
+            r12 = filter_thru(a * flux + b * f2, waveimg=wave.copy(), mask=None if mask is None else mask.copy())
+            if not np.allclose(r12, a * r + b * r2, rtol=1e-8, atol=1e-10):
+                bad.append(("linear_in_the_flux", "deviation %g" % np.abs(r12 - (a * r + b * r2)).max()))
+            cst = filter_thru(np.full(flux.shape, 3.25), waveimg=wave.copy(), mask=None if mask is None else mask.copy())
+            overlap = filter_thru(np.ones(flux.shape), waveimg=wave.copy()) > 0
+            if not np.allclose(cst[overlap], 3.25, rtol=1e-9):
+                bad.append(("constant_spectrum_preserved", "bands %s" % cst))
+            good = flux if mask is None else np.where(mask != 0, np.nan, flux)
+            lo_, hi_ = np.nanmin(good, axis=1), np.nanmax(good, axis=1)
+            for t in range(flux.shape[0]):
+                for bnd in range(5):
+                    if overlap[t, bnd] and not (lo_[t] - 1e-9 <= r[t, bnd] <= hi_[t] + 1e-9):
+                        bad.append(("within_min_and_max_of_the_flux", "trace %d band %d: %g outside [%g, %g]" % (t, bnd, r[t, bnd], lo_[t], hi_[t])))
+            if mask is not None:
+                junk = flux.copy()
+                junk[mask != 0] = 1.0e6
+                rj = filter_thru(junk, waveimg=wave.copy(), mask=mask.copy())
+                if not np.allclose(rj, r, rtol=1e-9, atol=1e-12):
+                    bad.append(("independent_of_masked_pixel_values", "changes by %g when masked pixels are set to 1e6" % np.abs(rj - r).max()))
+        return bad
+
+    def run_job(self, tier, seed, exclusions):
+        import random
+        import time
+        import traceback
+        t0 = time.time()
+        res = JobResult(job=self.name, target=self.target, level="B", prop="C19", obligations=[], failures=[], crashed=None,
+                        bound="generated flux images (1..3 traces, 60/120 pixels), wavelength images over 3500-9300 A, masks: none / random / same column in every trace / a run",
+                        paths=0, solver_s=0.0, queries=0, native_runs=0, native_failures=[], vacuity=None,
+                        assumptions=["numerical check (1e-8) with the real filter curves shipped in pydl/pydlutils/data/filters", "wavelength solution given as an image (the trace-set form goes through traceset2xy, C13)"])
+        fails = {}
+        n = 0
+        try:
+            rng = random.Random(seed * 7 + 2)
+            for c in self._cases(rng, 12 if tier == "quick" else 80):
+                n += 1
+                try:
+                    for kind, msg in self._check(c, rng):
+                        fails.setdefault(kind, []).append((msg, c["inp"]))
+                except Exception as e:
+                    fails.setdefault("no_unexpected_exception", []).append(("%s: %s" % (type(e).__name__, str(e)[:150]), c["inp"]))
+            res["paths"] = res["native_runs"] = n
+            for kd in self.KINDS:
+                b = fails.get(kd, [])
+                d = dict(name=self.name + ":" + kd, path=0, status="unsat" if not b else "sat", secs=0.0, backend="native-numeric", size=0, note="" if not b else b[0][0])
+                if b:
+                    d.update(inputs=dict(clause=kd, seed=seed, **b[0][1]), model=str(b[:2])[:1000], reason="")
+                res["obligations"].append(d)
+            res["vacuity"] = dict(cases=n)
+        except Exception:
+            res["crashed"] = traceback.format_exc()
+        res["wall_s"] = time.time() - t0
+        return res
+
+    def native_replay(self, inputs):
+        import random
+        rng = random.Random(int(inputs.get("seed", 0)) * 7 + 2)
+        last = None
+        for c in self._cases(rng, int(inputs["rep"]) + 1):
+            last = c
+            if c["inp"]["rep"] < int(inputs["rep"]):
+                try:
+                    self._check(c, rng)
+                except Exception:
+                    pass
+        try:
+            bad = self._check(last, rng)
+        except Exception as e:
+            bad = [("no_unexpected_exception", "%s: %s" % (type(e).__name__, e))]
+        return (not bad, "case %s: %s" % (last["inp"], bad[:2]))
